@@ -139,15 +139,19 @@ def jobs(prop, tier):
         combos = ((0, 0), (1, 0), (1, 1), (1, 2), (2, 0), (2, 1), (2, 2))
         groups = ((0, 'nosignal'), (1, 'skip'), (2, 'ready'), (9, 'recv'))
         # quick tier: the combinations in which arming, the address write, the echo check and the loss of signal happen
-        quick = {'C03': ('q1_arm0_skip', 'q1_arm0_ready', 'q1_arm1_skip', 'q1_arm1_recv', 'q1_arm2_ready'),
+        quick = {'C03': ('q1_arm0_skip', 'q1_arm0_ready', 'q1_arm1_skip', 'q1_arm1_skip_gen', 'q1_arm1_recv', 'q1_arm2_ready'),
                  'C04': ('q1_arm1_skip', 'q1_arm2_ready', 'q1_arm2_skip')}[prop]
         for (nq, arm) in combos:
           for (hg, gn) in groups:
+           for gs in (0, 1):
             if arm == 2 and hg == 9:
                 continue   # excluded by the invariant: after the address was written only ready (echo awaited) or skip/noSignal (timed out) occur
-            if not T and 'q%d_arm%d_%s' % (nq, arm, gn) not in quick:
+            if gs == 1 and hg > 1:
+                continue   # SYN generation only acts in noSignal/skip; in the other groups one job covers both settings
+            if not T and 'q%d_arm%d_%s' % (nq, arm, gn) + ('_gen' if gs else '') not in quick:
                 continue
-            J.append(Job(prop, 'pas_q%d_arm%d_%s' % (nq, arm, gn), 'C03_passive.cpp', defs={'NNMAX': nn, 'PROP': pn, 'NQ': nq, 'ARM': arm, 'HGROUP': hg}, unwind=5, shape='S', timeout=3000 if T else 300,
+            gdef = {'ENV_GENSYN': gs} if hg <= 1 else {}
+            J.append(Job(prop, 'pas_q%d_arm%d_%s%s' % (nq, arm, gn, '_gen' if gs else ''), 'C03_passive.cpp', defs=dict({'NNMAX': nn, 'PROP': pn, 'NQ': nq, 'ARM': arm, 'HGROUP': hg}, **gdef), unwind=5, shape='S', timeout=3000 if T else 300,
                          unwindset={'vp_main': 257, 'RecListener': nn + 8, 'related': nn + 8, 'relatedActive': nn + 8, 'reqIsM': nn + 8, 'setVec': nn + 8, 'fillRequest': nn + 8},
                          bounds='one handler step from every passive handler state of group "%s" with %d request(s) waiting and the device %s, every read outcome; telegram parts NN <= %d (the data size of passive reception is C01\'s subject)' % (gn, nq, ('idle', 'armed for arbitration', 'waiting for the echo of its arbitration address')[arm], nn), **BUS))
     if prop == 'C15':
